@@ -87,8 +87,145 @@ bool all_nonblocking(uint32_t from, int fn)
   return true;
 }
 
+// The child is gone and its status has been returned, but a descendant still
+// holds the stream: a blocking read goes on waiting for that descendant (data or
+// end-of-file), a non-blocking one reports would-block - exactly as before the
+// status was returned.
+static int64_t dbg_ms()
+{
+  struct timespec ts;
+  clock_gettime(CLOCK_MONOTONIC, &ts);
+  return (int64_t) ts.tv_sec * 1000 + ts.tv_nsec / 1000000;
+}
+#define DBG(what) do { if (getenv("C17_DEBUG")) { FILE *df = fopen("/tmp/c17dbg.txt", "a"); if (df) { fprintf(df, "C17DBG %d %s +%lld ms\n", (int) getpid(), what, (long long) (dbg_ms() - dbg0)); fclose(df); } } } while (0)
+
+CaseResult run_descendant_holds_stream(Tape &t)
+{
+  int64_t dbg0 = dbg_ms();
+  CaseResult res;
+  vs_init();
+  vs_reset();
+  vt::World w;
+  w.install();
+  bool nonblocking = t.chance(1, 3);
+  int stream = t.coin() ? 1 : 2;
+  bool via_stop = t.coin();
+  int64_t exit_after = (int64_t) t.range(0, 3000), write_after = (int64_t) t.range(1, 60000);
+  int code = (int) t.pick(256);
+  reproc_options opt;
+  memset(&opt, 0, sizeof(opt));
+  opt.redirect.err.type = REPROC_REDIRECT_PIPE;
+  opt.nonblocking = nonblocking;
+  opt.stop = { { REPROC_STOP_KILL, 5000 }, { REPROC_STOP_NOOP, 0 }, { REPROC_STOP_NOOP, 0 } };
+  res.describe = J().kv("scenario", "a descendant of the exited child still holds the stream").kv("nonblocking", nonblocking).kv("stream", stream).kv("status_obtained_by", via_stop ? "stop(wait)" : "wait")
+                     .kv("child_exits_after", (long long) exit_after).kv("descendant_writes_after", (long long) write_after).str();
+  res.cls(std::string("descendant-holds-stream") + (nonblocking ? ":nonblocking" : ":blocking"));
+  res.nontrivial = true;
+  res.hash = mix(mix(0xde5c, (uint64_t) nonblocking * 8 + (uint64_t) stream * 2 + via_stop), (uint64_t) exit_after * 100003 + (uint64_t) write_after);
+  vt::VChild ch;
+  std::string err = vt::start_puppet(w, fw::case_dir() + "/ctl", opt, ch);
+  if (!err.empty() || ch.start_result <= 0) {
+    w.uninstall();
+    res.inconclusive("start: " + err);
+    if (ch.p) reproc_destroy(ch.p);
+    return res;
+  }
+  vt::Kid &k = w.kids[(size_t) ch.kid];
+  pup_ack ack;
+  if (!k.pup->cmd(PUP_HOLDER, (uint32_t) stream, 0, &ack) || ack.status != 0) {
+    w.uninstall();
+    res.inconclusive("holder: " + k.pup->error());
+    reproc_destroy(ch.p);
+    return res;
+  }
+  pid_t holder = (pid_t) ack.v[0];
+  DBG("holder spawned");
+  std::string fifo = fw::case_dir() + "/ctl/holder";
+  // The descendant opens the FIFO for reading only after it has closed every
+  // other descriptor (the library's exit handle among them): once the write side
+  // can be opened, it is in place.
+  int hold_fd = -1;
+  for (int i = 0; hold_fd < 0 && i < 20000; i++) {
+    hold_fd = open(fifo.c_str(), O_WRONLY | O_NONBLOCK);
+    if (hold_fd < 0) usleep(500);
+  }
+  if (hold_fd < 0) {
+    w.uninstall();
+    res.inconclusive("the descendant did not get ready");
+    kill(holder, SIGKILL);
+    reproc_destroy(ch.p);
+    return res;
+  }
+  auto tell_holder = [&](char what) {
+    if (hold_fd < 0) return;
+    (void) !write(hold_fd, &what, 1);
+    close(hold_fd);
+    hold_fd = -1;
+    // it acts and exits: wait (real time) until it is gone
+    for (int i = 0; i < 20000; i++) {
+      int stt = hz::proc_state(holder);
+      if (stt == 0 || stt == 'Z' || stt == 'X') break;
+      usleep(500);
+    }
+  };
+  int64_t t0 = ch.t_start;
+  w.schedule(t0 + exit_after, ch.kid, vt::A_EXIT, (uint32_t) code);
+  w.call_begins(exit_after + 100000);
+  reproc_stop_actions sa = { { REPROC_STOP_WAIT, REPROC_INFINITE }, { REPROC_STOP_NOOP, 0 }, { REPROC_STOP_NOOP, 0 } };
+  int st = via_stop ? reproc_stop(ch.p, sa) : reproc_wait(ch.p, REPROC_INFINITE);
+  DBG("status obtained");
+  auto fail = [&](const std::string &sig, const std::string &m) { res.fail(sig, m); };
+  if (st != code) fail("wrong-status", "the child exited with " + std::to_string(code) + " but " + (via_stop ? "stop" : "wait") + " returned " + std::to_string(st));
+  REPROC_STREAM rs = stream == 1 ? REPROC_STREAM_OUT : REPROC_STREAM_ERR;
+  uint8_t buf[64];
+  if (res.kind == CaseResult::PASS) {
+    int64_t write_at = w.now + write_after;
+    bool told = false;
+    w.schedule_call(write_at, [&] {
+      told = true;
+      tell_holder('w');
+    });
+    int64_t entry = w.now;
+    w.call_begins(write_after + 100000);
+    int r = reproc_read(ch.p, rs, buf, sizeof(buf));
+    if (nonblocking) {
+      if (r != REPROC_EWOULDBLOCK || w.now != entry) fail("nonblocking-read-waited", "nothing to read and a descendant still holds the stream: a non-blocking read returned " + std::to_string(r) + " after " + std::to_string(w.now - entry) + " ms");
+      // now let the descendant write, then the data must be there
+      w.advance_to(write_at);
+      r = reproc_read(ch.p, rs, buf, sizeof(buf));
+      if (res.kind == CaseResult::PASS && (r != 5 || memcmp(buf, "late\n", 5) != 0)) fail("descendant-data-lost", "the descendant wrote 5 bytes to the stream; the read returned " + std::to_string(r));
+    } else {
+      if (r == REPROC_EWOULDBLOCK) fail("blocking-read-would-block", "a blocking read, issued after the status of the child had been returned and while a descendant still held the stream, returned the would-block error instead of waiting");
+      else if (!told || w.now != write_at) fail("blocking-read-returned-by-itself", "a blocking read with nothing to read returned " + std::to_string(r) + " at +" + std::to_string(w.now - entry) + " ms; the descendant writes at +" + std::to_string(write_after));
+      else if (r != 5 || memcmp(buf, "late\n", 5) != 0) fail("descendant-data-lost", "the descendant wrote 5 bytes to the stream; the blocking read returned " + std::to_string(r));
+    }
+    if (!told) tell_holder('x');
+    // the descendant is gone now: end-of-stream
+    if (res.kind == CaseResult::PASS) {
+      int e = reproc_read(ch.p, rs, buf, sizeof(buf));
+      if (e != REPROC_EPIPE) fail("no-eof-after-descendant", "every holder of the stream has exited; the read returned " + std::to_string(e) + " instead of the closed-stream error");
+    }
+  } else {
+    tell_holder('x');
+  }
+  DBG("reads done");
+  if (w.hang && res.kind == CaseResult::PASS) fail("blocked-forever", "a call blocked without bound (" + w.hang_what + ")");
+  if (!w.trouble.empty()) {
+    res.kind = CaseResult::INCONCLUSIVE;
+    res.msg = "harness: " + w.trouble;
+  }
+  w.uninstall();
+  if (hz::proc_state(holder) != 0 && hz::proc_state(holder) != 'Z') kill(holder, SIGKILL);
+  reproc_destroy(ch.p);
+  std::string lsig, lp = hz::ledger_problems(ch.fds_before, lsig);
+  if (!lp.empty() && res.kind == CaseResult::PASS) res.fail(lsig, "after destroy: " + lp);
+  DBG("done");
+  return res;
+}
+
 CaseResult run_case(Tape &t, long)
 {
+  if (t.chance(1, 12)) return run_descendant_holds_stream(t);
   CaseResult res;
   Case c = decode(t);
   vs_init();
